@@ -7,7 +7,7 @@ MOM = "ind:RSI,MACD,ROC,STOCH,TSI,AROON,ADX,OBV,VWAP,RMA,EMA,SMA,ATR"
 SCOPES = {
     "C01": [("ind:ALL", 400, 40), ("amorph:ALL", 150, 40), ("manager.collapse", 100, 50), ("manager.fill", 60, 50)],
     "C02": [("ind:ALL", 300, 40), ("amorph:ALL", 150, 40), ("analysis:ALL", 100, 24), ("manager.collapse", 100, 50)],
-    "C04": [(MA, 300, 50), ("access", 60, 30), ("arith", 40, 60)],
+    "C04": [(MA, 300, 50), ("hexital", 100, 40), ("access", 60, 30), ("arith", 40, 60)],
     "C05": [(VOL, 400, 50), ("analysis:highest,lowest", 60, 24), ("arith", 40, 60)],
     "C06": [(MOM, 400, 50), ("arith", 40, 60)],
     "C07": [("ind:ALL", 300, 40), ("amorph:ALL", 100, 40)],
